@@ -168,6 +168,29 @@ async fn vsleep(ms: u64) {
 
 type BoxStream = Pin<Box<dyn Stream<Item = Result<Msg, Status>> + Send>>;
 
+struct Hinted {
+    inner: BoxStream,
+    left: usize,
+    extra: usize,
+}
+impl Stream for Hinted {
+    type Item = Result<Msg, Status>;
+    fn poll_next(mut self: Pin<&mut Self>, cx: &mut Context<'_>) -> Poll<Option<Self::Item>> {
+        let r = self.inner.as_mut().poll_next(cx);
+        if let Poll::Ready(Some(_)) = &r {
+            if self.left > 0 {
+                self.left -= 1;
+            } else if self.extra > 0 {
+                self.extra -= 1;
+            }
+        }
+        r
+    }
+    fn size_hint(&self) -> (usize, Option<usize>) {
+        (self.left, Some(self.left + self.extra))
+    }
+}
+
 impl Handler {
     pub fn new() -> Self {
         Self::default()
@@ -212,7 +235,19 @@ impl Handler {
         }
         r
     }
-    fn out_stream(&self, id: String, script: Script, mut reqs: Option<Streaming<Msg>>) -> BoxStream {
+    fn out_stream(&self, id: String, script: Script, reqs: Option<Streaming<Msg>>) -> BoxStream {
+        // half of the scripts answer with a stream that knows its length (as `tokio_stream::iter`
+        // or `empty()` do): exact lower bound, upper bound including what would follow an error
+        let items = script.msgs.len() + script.end.is_some() as usize;
+        let hinted = (script.msgs.len() + script.pend.len() + script.initial_md.len()) % 2 == 0;
+        let inner = self.out_stream_plain(id, script.clone(), reqs);
+        if hinted {
+            Box::pin(Hinted { inner, left: items, extra: script.after_err as usize })
+        } else {
+            inner
+        }
+    }
+    fn out_stream_plain(&self, id: String, script: Script, mut reqs: Option<Streaming<Msg>>) -> BoxStream {
         let this = self.clone();
         // state machine: i = next message index
         let st = (0usize, false);
